@@ -21,6 +21,8 @@ func C09(c *core.Ctx) {
 		cx(true, &Will{"w/x", "bye5", 2, true}),
 		{Kind: "disconnect", Client: "X"}, {Kind: "cut", Client: "X"},
 		{Kind: "raw", Client: "X", Raw: []byte{0xF0, 0x00}, RawDesc: "reserved packet type 15"},
+		{Kind: "raw", Client: "X", Raw: []byte{0xE1, 0x00}, RawDesc: "DISCONNECT with a reserved flag set"},
+		{Kind: "raw", Client: "X", Raw: []byte{0xE0, 0x01, 0x00}, RawDesc: "DISCONNECT with a body"},
 		{Kind: "advance", D: 16 * time.Second},
 		sub("X", 5, "q", 1), pub("X", "q", 1, 6, "hello"),
 		conn("Z", "z", true), sub("Z", 7, "w/#", 1), {Kind: "disconnect", Client: "Z"},
@@ -36,7 +38,7 @@ func C09(c *core.Ctx) {
 			sub("W", 1, "#", 2)},
 		CrashIsViolation: false}
 	// Z must not time out either
-	ops[11].Opts.KeepAlive = 65535
+	ops[13].Opts.KeepAlive = 65535
 	spec.Search(c)
 	if c.HasViolation() || c.Expired() {
 		return
